@@ -24,12 +24,14 @@ RULE = ("every tree shape with <= 3 levels / 2..N leaves x label scheme x "
         "cells per cluster {2,3}; chain run with the project's own stages; "
         "centroid queries {all leaves, leaves under each top-level node, "
         "each single leaf (quick: first and last)} x bootstrap (factor, "
-        "iterations) {(1,1),(1,3),(0.5,5),(0.25,7),(0.97,7)} x seeds "
-        "{VERIF_SEED, +1} x all rotations of the query gene order x "
+        "iterations) {(1,1),(1,3),(0.5,5),(0.25,7),(0.97,7),(1,256),(0.97,256)} x "
+        "result buffer {scratch, result directory} x seeds {VERIF_SEED, +1} x all rotations of the query gene order x "
         "(chunk_size, n_processors) {(100,1),(1,2),(2,3)}; precondition "
         "(no other leaf below the node perfectly correlated on the genes "
         "used; own sub-profile not constant) evaluated on the recorded "
-        "subsets.  distinct_nontrivial = distinct (shape, query, config) "
+        "subsets; then the whole chain is re-built in place (same paths and "
+        "names, signatures moved to other clusters) in the same interpreter "
+        "and queried again.  distinct_nontrivial = distinct (shape, query, config) "
         "runs in which >= 1 (cell, node) met the precondition")
 ASSUMPTIONS = [
     "separable block-structured reference (strictly positive distinct "
@@ -75,133 +77,150 @@ def evaluate(case, scratch):
 
     n_leaves = len(domains.realize_tree(L, shape, 'A')[1]['leaves'])
     n_genes = max(8, 2 * n_leaves + 2)
-    ref = refdata.make_reference(
-        d / 'ref', L=L, shape=shape, scheme=case['scheme'],
-        cells_per=case['cells_per'], n_genes=n_genes, seed=case['seed'],
-        n_files=2)
-    # ---- the project's own stages, each feeding the next
-    try:
-        stats = refdata.run_precompute(ref, d / 'stats.h5', tmp,
-                                       n_processors=2, rows_at_a_time=3)
-        refm = refdata.run_reference_markers(stats, d / 'refm.h5', tmp,
-                                             n_processors=2)
-        lookup = refdata.run_query_markers(
-            refm, stats, list(reversed(ref.genes)), tmp, n_processors=2,
-            n_per_utility=3)
-    except Exception as e:
-        import traceback
-        viol('stage-rejects-previous-output',
-             f'{type(e).__name__}: {e}\n{traceback.format_exc()[-1200:]}')
-        return {'violations': violations}
-    finally:
-        common.close_leaked_h5()
-    marker_path = d / 'query_markers.json'
-    with open(marker_path, 'w') as dst:
-        json.dump(dict(lookup, metadata={'x': 1}), dst)
-    # ---- names consistent across the three files
-    with h5py.File(stats, 'r') as src:
-        s_genes = json.loads(src['col_names'][()].decode())
-        c2r = json.loads(src['cluster_to_row'][()].decode())
-        n_cells = src['n_cells'][()]
-        sums = src['sum'][()]
-        tree_json = json.loads(src['taxonomy_tree'][()].decode())
-    with h5py.File(refm, 'r') as src:
-        m_genes = json.loads(src['gene_names'][()].decode())
-        p2i = json.loads(src['pair_to_idx'][()].decode())
-    model = mm.model_from_tree_json(tree_json)
-    leaves = model['leaves']
-    if s_genes != m_genes or sorted(s_genes) != sorted(ref.genes):
-        viol('names-inconsistent', f'genes: stats {s_genes} markers '
-                                   f'{m_genes} data {ref.genes}')
-    if set(c2r) != set(leaves):
-        viol('names-inconsistent', f'clusters: {sorted(c2r)} vs '
-                                   f'{sorted(leaves)}')
-    leaf_level = model['hierarchy'][-1]
-    pair_nodes = set(p2i.get(leaf_level, {}).keys())
-    if pair_nodes != set(leaves):
-        viol('names-inconsistent', f'marker file pairs name {pair_nodes}')
-    for key, gl in lookup.items():
-        unknown = set(gl) - set(s_genes)
-        if unknown:
-            viol('names-inconsistent', f'query markers of {key} not in '
-                                       f'the reference: {sorted(unknown)}')
-    cons = mm.consulted_parents(model)
-    for key, lv, node, anc in cons:
-        if key not in lookup:
-            viol('names-inconsistent',
-                 f'query marker table lacks parent {key}')
-    # ---- centroid queries
-    centroid = {leaf: sums[c2r[leaf]] / max(1, n_cells[c2r[leaf]])
-                for leaf in leaves}
-    h = model['hierarchy']
-    subsets = [('all', list(leaves))]
-    for top in model['nodes'][h[0]]:
-        under = domains.model_leaves_under(model, h[0], top)
-        if 0 < len(under) < len(leaves):
-            subsets.append((f'under {top}', under))
-    singles = leaves if case['tier'] == 'thorough' else \
-        [leaves[0], leaves[-1]]
-    for leaf in singles:
-        subsets.append((f'only {leaf}', [leaf]))
-    boots = [(1.0, 1), (1.0, 3), (0.5, 5), (0.25, 7), (0.97, 7)]
-    pools = [(100, 1), (1, 2), (2, 3)]
-    G = len(s_genes)
-    rotations = range(G) if case['tier'] == 'thorough' else (0, 1, G // 2)
-    stub = scenario.Built()
-    stub.dir = d
-    stub.model = model
-    stub.stats_path = stats
-    stub.marker_path = marker_path
-    stub._query_cache = {}
-    run_idx = 0
-    for (qname, qleaves), (factor, it) in itertools.product(subsets, boots):
-        for ri, rot in enumerate(rotations):
-            # not the full product: rotate through pools / seeds
-            chunk, npr = pools[(run_idx + ri) % len(pools)]
-            rng_seed = case['seed'] + ((run_idx + ri) % 2)
-            run_idx += 1
-            order = [(j + rot) % G for j in range(G)]
-            genes = [s_genes[j] for j in order]
-            mat = np.array([centroid[leaf][order] for leaf in qleaves])
-            ids = [f'centroid_of_{leaf}' for leaf in qleaves]
-            qpath = d / f'q_{n_runs}.h5ad'
-            stub.query_genes = genes
-            stub.cell_ids = ids
-            stub.raw = mat
-            stub.log2cpm = mat
-            scenario.write_query(stub, 'log2CPM', 'dense', name=qpath.name,
-                                 matrix=mat, genes=genes, ids=ids)
-            run_dir = scratch.new_dir('r')
-            tdir = run_dir / 'trace'
-            trace.install(tdir)
-            trace.retarget(tdir)
-            try:
-                o = scenario.run_mapping(
-                    stub, {'normalization': 'log2CPM', 'factor': factor,
-                           'iterations': it, 'chunk_size': chunk,
-                           'n_processors': npr, 'rng_seed': rng_seed,
-                           'n_runners_up': 2, 'min_markers': 1},
-                    run_dir, query_path=qpath)
-            finally:
-                trace.uninstall()
-                common.close_leaked_h5()
-            n_runs += 1
-            desc = (f'query={qname} factor={factor} iterations={it} '
-                    f'rotation={rot} chunk={chunk} workers={npr} '
-                    f'seed={rng_seed}')
-            if not (o.ok and o.blob and 'results' in o.blob):
-                viol('mapping-rejects-pipeline-output',
-                     f'{desc}: {o.error}\n{(o.tb or "")[-1000:]}')
+    for phase in (0, 1):
+        # phase 1: the whole chain is re-built IN PLACE (same paths, same
+        # names, the signatures moved to other clusters) and used again in
+        # this interpreter
+        if phase == 1:
+            for pth in (d / 'stats.h5', d / 'refm.h5'):
+                pth.unlink()
+        ref = refdata.make_reference(
+            d / 'ref', L=L, shape=shape, scheme=case['scheme'],
+            cells_per=case['cells_per'], n_genes=n_genes, seed=case['seed'],
+            n_files=2, profile_shift=phase)
+        # ---- the project's own stages, each feeding the next
+        try:
+            stats = refdata.run_precompute(ref, d / 'stats.h5', tmp,
+                                           n_processors=2, rows_at_a_time=3)
+            refm = refdata.run_reference_markers(stats, d / 'refm.h5', tmp,
+                                                 n_processors=2)
+            lookup = refdata.run_query_markers(
+                refm, stats, list(reversed(ref.genes)), tmp, n_processors=2,
+                n_per_utility=3)
+        except Exception as e:
+            import traceback
+            viol('stage-rejects-previous-output',
+                 f'{type(e).__name__}: {e}\n{traceback.format_exc()[-1200:]}')
+            return {'violations': violations}
+        finally:
+            common.close_leaked_h5()
+        marker_path = d / 'query_markers.json'
+        with open(marker_path, 'w') as dst:
+            json.dump(dict(lookup, metadata={'x': 1}), dst)
+        # ---- names consistent across the three files
+        with h5py.File(stats, 'r') as src:
+            s_genes = json.loads(src['col_names'][()].decode())
+            c2r = json.loads(src['cluster_to_row'][()].decode())
+            n_cells = src['n_cells'][()]
+            sums = src['sum'][()]
+            tree_json = json.loads(src['taxonomy_tree'][()].decode())
+        with h5py.File(refm, 'r') as src:
+            m_genes = json.loads(src['gene_names'][()].decode())
+            p2i = json.loads(src['pair_to_idx'][()].decode())
+        model = mm.model_from_tree_json(tree_json)
+        leaves = model['leaves']
+        if s_genes != m_genes or sorted(s_genes) != sorted(ref.genes):
+            viol('names-inconsistent', f'genes: stats {s_genes} markers '
+                                       f'{m_genes} data {ref.genes}')
+        if set(c2r) != set(leaves):
+            viol('names-inconsistent', f'clusters: {sorted(c2r)} vs '
+                                       f'{sorted(leaves)}')
+        leaf_level = model['hierarchy'][-1]
+        pair_nodes = set(p2i.get(leaf_level, {}).keys())
+        if pair_nodes != set(leaves):
+            viol('names-inconsistent', f'marker file pairs name {pair_nodes}')
+        for key, gl in lookup.items():
+            unknown = set(gl) - set(s_genes)
+            if unknown:
+                viol('names-inconsistent', f'query markers of {key} not in '
+                                           f'the reference: {sorted(unknown)}')
+        cons = mm.consulted_parents(model)
+        for key, lv, node, anc in cons:
+            if key not in lookup:
+                viol('names-inconsistent',
+                     f'query marker table lacks parent {key}')
+        # ---- centroid queries
+        centroid = {leaf: sums[c2r[leaf]] / max(1, n_cells[c2r[leaf]])
+                    for leaf in leaves}
+        h = model['hierarchy']
+        subsets = [('all', list(leaves))]
+        for top in model['nodes'][h[0]]:
+            under = domains.model_leaves_under(model, h[0], top)
+            if 0 < len(under) < len(leaves):
+                subsets.append((f'under {top}', under))
+        singles = leaves if case['tier'] == 'thorough' else \
+            [leaves[0], leaves[-1]]
+        for leaf in singles:
+            subsets.append((f'only {leaf}', [leaf]))
+        boots = [(1.0, 1), (1.0, 3), (0.5, 5), (0.25, 7), (0.97, 7),
+                 (1.0, 256), (0.97, 256)]
+        pools = [(100, 1), (1, 2), (2, 3)]
+        G = len(s_genes)
+        rotations = range(G) if case['tier'] == 'thorough' else (0, 1, G // 2)
+        if phase == 1:
+            subsets = subsets[:2]
+            boots = [(1.0, 1), (0.5, 5)]
+            rotations = (0, 1)
+        stub = scenario.Built()
+        stub.dir = d
+        stub.model = model
+        stub.stats_path = stats
+        stub.marker_path = marker_path
+        stub._query_cache = {}
+        run_idx = 0
+        for (qname, qleaves), (factor, it) in itertools.product(subsets, boots):
+            for ri, rot in enumerate(rotations):
+                if it > 100 and ri > 0:
+                    continue
+                # not the full product: rotate through pools / seeds
+                chunk, npr = pools[(run_idx + ri) % len(pools)]
+                rng_seed = case['seed'] + ((run_idx + ri) % 2)
+                run_idx += 1
+                order = [(j + rot) % G for j in range(G)]
+                genes = [s_genes[j] for j in order]
+                mat = np.array([centroid[leaf][order] for leaf in qleaves])
+                ids = [f'centroid_of_{leaf}' for leaf in qleaves]
+                qpath = d / f'q_{n_runs}.h5ad'
+                stub.query_genes = genes
+                stub.cell_ids = ids
+                stub.raw = mat
+                stub.log2cpm = mat
+                scenario.write_query(stub, 'log2CPM', 'dense', name=qpath.name,
+                                     matrix=mat, genes=genes, ids=ids)
+                run_dir = scratch.new_dir('r')
+                tdir = run_dir / 'trace'
+                trace.install(tdir)
+                trace.retarget(tdir)
+                try:
+                    o = scenario.run_mapping(
+                        stub, {'normalization': 'log2CPM', 'factor': factor,
+                               'iterations': it, 'chunk_size': chunk,
+                               'n_processors': npr, 'rng_seed': rng_seed,
+                               'n_runners_up': 2, 'min_markers': 1,
+                               'buffer': ('tmp_dir', 'result_dir')[
+                                   (run_idx + phase) % 2]},
+                        run_dir, query_path=qpath)
+                finally:
+                    trace.uninstall()
+                    common.close_leaked_h5()
+                n_runs += 1
+                desc = (('rebuilt in place: ' if phase else '') +
+                        f'query={qname} factor={factor} iterations={it} '
+                        f'rotation={rot} chunk={chunk} workers={npr} '
+                        f'seed={rng_seed}')
+                if not (o.ok and o.blob and 'results' in o.blob):
+                    viol('mapping-rejects-pipeline-output',
+                         f'{desc}: {o.error}\n{(o.tb or "")[-1000:]}')
+                    qpath.unlink()
+                    continue
+                met = judge(o, tdir, model, centroid, s_genes, qleaves, ids,
+                            lookup, it, factor, desc, viol)
+                if met:
+                    keys.append(f'{shape_s}|{desc}')
+                if sample is None and met:
+                    sample = {'shape': shape_s, 'run': desc,
+                              'record': o.blob['results'][0]}
                 qpath.unlink()
-                continue
-            met = judge(o, tdir, model, centroid, s_genes, qleaves, ids,
-                        lookup, it, factor, desc, viol)
-            if met:
-                keys.append(f'{shape_s}|{desc}')
-            if sample is None and met:
-                sample = {'shape': shape_s, 'run': desc,
-                          'record': o.blob['results'][0]}
-            qpath.unlink()
     return {'violations': violations[:40], 'keys': keys,
             'outcomes': [shape_s], 'evaluations': n_runs, 'sample': sample}
 
